@@ -419,7 +419,8 @@ pub fn build(family: &str, tier: Tier) -> Vec<Cfg> {
                 if !thorough && policy == OfflineQueuePolicy::PreserveNothing { continue; }
                 let mut c = Cfg::base("ordering", &format!("caps[4096, 5, 4096]-{:?}", policy));
                 c.caps = vec![4096, 5, 4096]; c.offline = policy;
-                c.submits = vec![spec("pub1", publish("t", 1)), spec("pub2", publish("t", 2))];
+                // quick tier: QoS 1 only, which keeps the space small enough to be completed well inside the configuration's wall share
+                c.submits = if thorough { vec![spec("pub1", publish("t", 1)), spec("pub2", publish("t", 2))] } else { vec![spec("pub1", publish("t", 1))] };
                 c.max_submits = 3; c.max_conns = 3; c.budget = 2; c.max_depth = 90;
                 c.allow.close = true;
                 c.session_answers = vec![true];
